@@ -13,6 +13,10 @@ Spec:   spec/MofCompile.tla      requirement machine (Total, PositionInside,
         spec/MofCompileMC.tla    model check over the whole session space +
                                  export of the enumerated sessions
         spec/MofCompileTrace.tla trace validation (total verdicts, drift)
+        Session parts: A focus production among defect-free ones, B focus in
+        an include file, C focus after an include, D nested compile (embedded
+        value, scalar/array) followed by a defective production, E class
+        production followed by an instance of that class / of a subclass.
 Binding: every TLC-enumerated session selected for the tier is rendered by
         harness/mofgen.py to real MOF text / files and compiled by the real
         MOFCompiler (compile_string, compile_file; MOFWBEMConnection, a
@@ -39,9 +43,17 @@ LEGACY = [
     ("MofCompileImplLegacyPragma.cfg", "ImplRefinesReq",
      "m.group() before the None check in p_compilerDirective: "
      "AttributeError", True),
-    ("MofCompileImplLegacyRestore.cfg", "PositionFileOK",
-     "parser.file not restored after an include returns: later errors name "
-     "the wrong file", True),
+    ("MofCompileImplLegacyRestore.cfg", ("PositionFileOK", "ImplRefinesReq"),
+     "parser.file/.mof not restored after an include returns: later errors "
+     "name the wrong file or are computed against the wrong text", True),
+    ("MofCompileImplLegacyEmbMof.cfg", "ImplRefinesReq",
+     "compile_embedded_value restores parser.mof only after a single string: "
+     "an error after an array of embedded values indexes the wrong text "
+     "(IndexError)", True),
+    ("MofCompileImplLegacySuper.cfg", "ImplRefinesReq",
+     "MOFWBEMConnection.CreateClass stores the class before it looks the "
+     "superclass up: 'class X : X' is accepted, an instance of it recurses "
+     "for ever (RecursionError)", True),
     ("MofCompileImplLegacyEmb.cfg", "Reusable",
      "embedded_objects not reset in a finally clause: compiler unusable "
      "after a failed embedded compile", True),
@@ -66,8 +78,35 @@ PLAIN = {("qualDecl", "none", "plain"), ("class", "none", "plain"),
          ("include", "none", "inc2")}
 
 
+# valid helper productions of the session parts D (nested compile, then an
+# error) and E (declare, then use) of spec/MofCompile.tla
+NESTED = {("instance", "none", "emb_ok"), ("instance", "none", "emb_array_ok"),
+          ("instance", "none", "emb_array_one")}
+OFPREV = ("instance", "none", "of_prev")
+SUBOFPREV = ("class", "none", "sub_of_prev")
+
+
 def pkey(p):
     return (p["k"], p["d"], p["v"])
+
+
+def part_of(ses):
+    """"D1"/"D2"/"E2"/"E3" for the sessions of SessionsD/SessionsE, else None.
+    Returns (part, helper production, focus production)."""
+    m, i = ses["main"], ses["inc"]
+    if len(m) == 2 and not i and pkey(m[0]) in NESTED and \
+            m[1]["d"] in ("lex", "syntax", "value", "dependency"):
+        return "D1", m[0], m[1]
+    if len(m) == 2 and len(i) == 1 and pkey(i[0]) in NESTED and \
+            pkey(m[0]) == ("include", "none", "inc2") and \
+            m[1]["d"] in ("lex", "syntax", "value", "dependency"):
+        return "D2", i[0], m[1]
+    if len(m) in (2, 3) and not i and pkey(m[-1]) == OFPREV and \
+            m[0]["k"] == "class" and pkey(m[0]) != SUBOFPREV and \
+            (len(m) == 2 or pkey(m[1]) == SUBOFPREV) and \
+            pkey(m[0]) not in PLAIN:
+        return "E%d" % len(m), m[-1], m[0]
+    return None
 
 
 def focus_of(ses):
@@ -80,6 +119,13 @@ def focus_of(ses):
 
 
 def focus_name(ses):
+    part = part_of(ses)
+    if part:
+        _, h, f = part
+        one, two = "%s.%s.%s" % pkey(f), "%s.%s" % (h["k"], h["v"])
+        if part[0] == "E3":
+            two = "class.sub_of_prev>" + two
+        return one + ">" + two if part[0][0] == "E" else two + ">" + one
     nf = [p for p in ses["main"] + ses["inc"] if pkey(p) not in PLAIN]
     if len(nf) > 1:
         return "multi"
@@ -101,7 +147,12 @@ def shape_of(ses):
 def select(ctx, sessions, quick):
     rng = ctx.rng
     by_focus = {}
+    parts = {}
     for s in sessions:
+        part = part_of(s)
+        if part:
+            parts.setdefault(part[0], []).append((s, part[1], part[2]))
+            continue
         f = focus_of(s)
         by_focus.setdefault((pkey(f), f["a"]), {}).setdefault(
             shape_of(s), []).append(s)
@@ -148,6 +199,43 @@ def select(ctx, sessions, quick):
                     cands = rng.sample(cands, cap[sh])
                 for s in cands:
                     add(s, *rng.choice(combos))
+    # ---- part D: nested compile (embedded value), then a defective
+    # production.  quick: per nested variant, form and (kind, defect class) of
+    # the defective production 2 (D1) / 1 (D2) representatives; thorough: all
+    n_d = 0
+    for pn in ("D1", "D2"):
+        groups = {}
+        for s, h, f in parts.get(pn, []):
+            groups.setdefault((h["v"], f["k"], f["d"]), []).append(s)
+        for g in sorted(groups):
+            cands = groups[g]
+            if quick:
+                cands = rng.sample(cands, min(len(cands),
+                                              2 if pn == "D1" else 1))
+            for s in cands:
+                add(s, *COMBOS[n_d % len(COMBOS)])
+                n_d += 1
+    # ---- part E: a class production, then an instance of that class (of a
+    # subclass of it).  MOFWBEMConnection is the repository whose class store
+    # the compile itself fills; quick: every value/dependency/valid variant
+    # and a sample of the token mutations on it, thorough: all, and once more
+    # on another api/handle pair
+    n_e = 0
+    for pn in ("E2", "E3"):
+        groups = {}
+        for s, h, f in parts.get(pn, []):
+            g = pkey(f) if f["d"] in ("none", "value", "dependency") \
+                else (f["k"], f["d"], "")
+            groups.setdefault(g, []).append(s)
+        for g in sorted(groups):
+            cands = groups[g]
+            if quick and len(cands) > 4:
+                cands = rng.sample(cands, 4)
+            for s in cands:
+                add(s, *COMBOS[n_e % 2])
+                if not quick:
+                    add(s, *COMBOS[2 + n_e % 3])
+                n_e += 1
     return jobs
 
 
@@ -296,7 +384,8 @@ def signature(ses, ev, clauses):
         site = ev.get("site") or "?"
         if ev["out"] == "RecursionError":
             f = focus_of(ses)
-            site = "%s.%s" % (f["k"], f["v"]) if focus_name(ses) != "multi" \
+            site = focus_name(ses) if part_of(ses) else \
+                "%s.%s" % (f["k"], f["v"]) if focus_name(ses) != "multi" \
                 else "recursion"
         return "%s:Total.NoOtherException:%s@%s" % (ev["call"], ev["out"],
                                                     site)
@@ -437,11 +526,12 @@ def run(ctx):
             continue
         rl = ctx.tlc("MofCompileImpl", lcfg, must_pass=False, count=False,
                      workers=4, label="regression config: " + what)
-        if rl.violated != inv:
+        if rl.violated not in ((inv,) if isinstance(inv, str) else inv):
             raise vlib.MachineryError(
                 "%s did not violate %s (got %s)\n%s" %
                 (lcfg, inv, rl.violated, rl.out[-1500:]))
-        sens.append("%s violates %s as required (%s)" % (lcfg, inv, what))
+        sens.append("%s violates %s as required (%s)" % (lcfg, rl.violated,
+                                                          what))
     ctx.extra["sensitivity"] = sens
 
     # ---- 2. spec -> code: replay the enumerated sessions --------------------
